@@ -10,6 +10,7 @@
 (*  Crash    {c, b}            the writer process was killed inside add()  *)
 (*  Filter   {c, m, p, n, res:[row...]}   p = <<0>> for "no prefix"         *)
 (*  Modules  {c, res:[module...]}                                          *)
+(*  QueryFailed {c, op}       filter / list_modules raised                  *)
 (*  Check    {rows:[{mod, qn, key, cnt}...], integrity}  table contents    *)
 (*            read through an independent connection                       *)
 (*                                                                         *)
@@ -109,6 +110,11 @@ Step ==
             IN /\ IF e.integrity # "ok" THEN /\ viol' = viol \cup {"Integrity"} /\ UNCHANGED known
                   ELSE Observe(Expl, "Atomic")
                /\ UNCHANGED <<rowsOf, committed, undecided>>
+       [] e.ev = "QueryFailed" ->
+            \* filter / list_modules raised.  While some add() is still in flight a reader may be told the
+            \* database is busy; with no writer in flight a query must answer.
+            /\ viol' = viol \cup (IF \E b \in DOMAIN undecided : undecided[b] = "flying" THEN {} ELSE {"QueryFails"})
+            /\ UNCHANGED <<rowsOf, committed, undecided, known>>
        [] OTHER -> UNCHANGED <<rowsOf, committed, undecided, known, viol>>
   /\ l' = l + 1 /\ UNCHANGED i
 
